@@ -25,7 +25,7 @@ Record kcase := KC {
 Definition result_eqb (a b : result) : bool :=
   match a, b with
   | ROk, ROk | ENotFound, ENotFound | EDuplicate, EDuplicate | EMissingID, EMissingID
-  | EType, EType | EVeto, EVeto | RPanic, RPanic | EOther, EOther => true
+  | EType, EType | EVeto, EVeto | RPanic, RPanic | EOther, EOther | EEncode, EEncode => true
   | RVal x, RVal y => beq x y
   | RBool x, RBool y => Bool.eqb x y
   | _, _ => false
@@ -89,7 +89,7 @@ Definition check_case (c : kcase) : list N :=
    codes: 1 Create on an existing id did not fail with the duplicate error
           2 Create without an id succeeded although the store generates none
           3 Update/Delete/Value on a missing id did not fail with not-found / Exists is wrong
-          4 a wrong-type value or a BeforeChange veto did not fail
+          4 a wrong-type value, a value that cannot be encoded or a BeforeChange veto did not fail
           5 a failed operation or a read ran change callbacks
           6 a successful mutation did not run the callbacks exactly once with (id, value before, value after)
           7 a callback's before-value is not the previous after-value of that id
@@ -99,7 +99,7 @@ Definition check_case (c : kcase) : list N :=
           11 an operation that succeeded or was vetoed did not call the BeforeChange listeners once
              each, in registration order, up to the first veto, with (id, value before, value after) *)
 Definition is_failure (r : result) : bool :=
-  match r with ENotFound | EDuplicate | EMissingID | EType | EVeto | RPanic | EOther => true | _ => false end.
+  match r with ENotFound | EDuplicate | EMissingID | EType | EVeto | RPanic | EEncode | EOther => true | _ => false end.
 Definition is_ok (r : result) : bool := match r with ROk => true | _ => false end.
 Definition kind_checks (k : skind) : bool := match k with SBadger _ _ => true | SMock _ => false end.
 Definition kind_nl (k : skind) : nat := match k with SBadger _ nl => nl | SMock _ => 0%nat end.
@@ -134,14 +134,14 @@ Definition op_codes (k : skind) (content : amap) (o : iop) : list N :=
        else match cur with
             | Some _ => if chk && e_wrongtype e then (if fails then [] else [4])
                         else (if result_eqb r EDuplicate then [] else [1])
-            | None => if chk && (e_wrongtype e || e_veto e) then (if fails then [] else [4])
+            | None => if chk && (e_wrongtype e || e_veto e || e_unenc e) then (if fails then [] else [4])
                       else (if is_ok r then [] else [9])
             end
    | OUpdate _ v e =>
        match cur with
        | None => if chk && e_wrongtype e then (if fails then [] else [4])
                  else (if result_eqb r ENotFound then [] else [3])
-       | Some _ => if chk && (e_wrongtype e || e_veto e) then (if fails then [] else [4])
+       | Some _ => if chk && (e_wrongtype e || e_veto e || e_unenc e) then (if fails then [] else [4])
                    else (if is_ok r then [] else [9])
        end
    | ODelete _ e =>
